@@ -322,6 +322,8 @@ type pworker struct {
 	curBlk  int
 	curIdx  int
 	curKind string
+	// for generated comment programs: the non-empty trimmed comment texts the generator wrote
+	expectComments []string
 }
 
 func parseWorker(c *core.Ctx) {
@@ -441,7 +443,10 @@ func (w *pworker) runBlock(b pblock) {
 		}
 	case "comment":
 		for i := 0; i < b.Count; i++ {
-			w.input(commentProgram(r), nil)
+			text, want := commentProgram(r)
+			w.expectComments = want
+			w.input(text, nil)
+			w.expectComments = nil
 		}
 	case "prefix":
 		for i := 0; i < b.Count; i++ {
@@ -517,7 +522,22 @@ func (w *pworker) judge(x string, p *gen.Prog, record bool) (v *core.Violation) 
 	case "C06":
 		return oracleC06(x, p, res)
 	case "C07", "C11", "C15":
-		return oracleFmt(w.c.Prop, x, p, res)
+		if v := oracleFmt(w.c.Prop, x, p, res); v != nil {
+			return v
+		}
+		if w.c.Prop == "C15" && w.expectComments != nil {
+			// the comments the generator wrote must be the comments of the formatted text
+			if t, err := parse(x); err == nil {
+				if t2, err2 := parse(t.String()); err2 == nil {
+					got, _ := comments(t2)
+					if !reflect.DeepEqual(got, w.expectComments) && !(len(got) == 0 && len(w.expectComments) == 0) {
+						return &core.Violation{Clause: "comments-kept-verbatim", Detail: fmt.Sprintf("the comments written %q come back from the formatted text as %q (input %s)", w.expectComments, got, core.Trunc(strconv.Quote(x), 300))}
+					}
+					res.Count("generator_known_comment_lists_checked", 1)
+				}
+			}
+		}
+		return nil
 	case "C08":
 		return oracleC08(x, res)
 	case "C16":
@@ -853,8 +873,9 @@ func smallStructure(r *core.Rng, k int) gen.Prog {
 }
 
 // commentProgram puts comments in every position the syntax allows.
-func commentProgram(r *core.Rng) string {
+func commentProgram(r *core.Rng) (string, []string) {
 	var b strings.Builder
+	var want []string
 	cmt := func() {
 		n := r.Range(1, 4)
 		for i := 0; i < n; i++ {
@@ -864,7 +885,9 @@ func commentProgram(r *core.Rng) string {
 			case 1:
 				b.WriteString("#" + strings.Repeat(" ", r.Range(1, 3)) + "\n")
 			default:
-				b.WriteString("#" + core.Pick(r, []string{" c", "c", "  two words ", " é", "\tx", " # nested", " task t() {}"}) + strconv.Itoa(r.Intn(5)) + "\n")
+				c := core.Pick(r, []string{" c", "c", "  two words ", " é", "\tx", " # nested", " task t() {}", " say \"hi\" twice", " a  b", " 100% (of) {it}"}) + strconv.Itoa(r.Intn(5))
+				b.WriteString("#" + c + "\n")
+				want = append(want, strings.TrimSpace(c))
 			}
 			if r.Chance(25) {
 				b.WriteString("\n")
@@ -883,6 +906,7 @@ func commentProgram(r *core.Rng) string {
 			b.WriteString("P := join(\"a\", \"b\")")
 			if r.Chance(30) {
 				b.WriteString(" # trailing\n")
+				want = append(want, "trailing")
 			} else {
 				b.WriteString("\n")
 			}
@@ -908,7 +932,7 @@ func commentProgram(r *core.Rng) string {
 	if r.Chance(15) {
 		s = strings.ReplaceAll(s, "\n", "\r\n")
 	}
-	return s
+	return s, want
 }
 
 // shrinkString reduces a failing input (bounded number of oracle calls).
